@@ -238,3 +238,46 @@ def monitor_c20(se, stats):
                         viol.append({"step": i, "what": "get-empty for %s although %d messages are ready and no prefetch window blocks" % (f[3], len(q["ready"]))})
         prev = cur
     return viol
+
+
+def monitor_c15(se, stats):
+    """Delivery tags start at 1 and grow by one per deliver / get-ok on a channel instance; ack / nack / reject settle
+    exactly what they name on their own channel and nothing on any other."""
+    viol = []
+    nxt = {}
+    prev = None
+    for i, st in enumerate(se["steps"]):
+        if st["snap"] == ["WEDGED"]:
+            break
+        cur = parse_snap(st["snap"])
+        for (c, h, name, args, tail) in frames_of(st):
+            if name == "channel.open-ok":
+                nxt[(c, h)] = 0
+            elif name in ("basic.deliver", "basic.get-ok"):
+                tag = int(args[1] if name == "basic.deliver" else args[0])
+                stats["deliveries"] = stats.get("deliveries", 0) + 1
+                if tag != nxt.get((c, h), 0) + 1:
+                    viol.append({"step": i, "what": "delivery tag %d on channel %d.%d, expected %d (after `%s`)" % (tag, c, h, nxt.get((c, h), 0) + 1, st["op"])})
+                nxt[(c, h)] = tag
+        f = st["op"].split()
+        if prev is not None and f[0] in ("ACK", "NACK", "REJ") and not any(":channel.close(" in x or ":connection.close(" in x for x in st["frames"]):
+            c, h, tag = int(f[1]), int(f[2]), int(f[3])
+            mult = (f[4] == "1") if f[0] in ("ACK", "NACK") else False
+            pch = prev["chans"].get((c, h))
+            if pch is not None and pch["st"] == 1:
+                stats["settles"] = stats.get("settles", 0) + 1
+                before = {u["tag"]: u for u in pch["unacked"]}
+                covered = {t for t in before if (mult and (tag == 0 or t <= tag)) or (not mult and t == tag)}
+                after = {u["tag"]: u for u in cur["chans"].get((c, h), {"unacked": []})["unacked"]}
+                gone = {t for t in before if t not in after}
+                if gone != covered:
+                    viol.append({"step": i, "what": "`%s` settled tags %s of channel %d.%d, it names %s" % (st["op"], sorted(gone), c, h, sorted(covered))})
+                for key, och in prev["chans"].items():
+                    if key == (c, h) or key not in cur["chans"]:
+                        continue
+                    otags = {u["tag"] for u in cur["chans"][key]["unacked"]}
+                    lost = [u["tag"] for u in och["unacked"] if u["tag"] not in otags]
+                    if lost:
+                        viol.append({"step": i, "what": "`%s` on channel %d.%d removed deliveries %s of channel %d.%d" % (st["op"], c, h, lost, key[0], key[1])})
+        prev = cur
+    return viol
